@@ -231,7 +231,9 @@ func parseWeight(s string) (float64, error) {
 }
 
 func parseTags(s string) []string {
-	if s == "" {
+	// a blank tag list is no tag list: a single blank tag would be
+	// rendered as 'tags ""' which is read back as no tags
+	if strings.TrimSpace(s) == "" {
 		return nil
 	}
 	tags := strings.Split(s, ",")
